@@ -1,5 +1,5 @@
 """C17: derived schemas.  TLC (MC_DeriveModel) emits type definitions + expected schema + values; this glue renders
-the definitions as Rust into harness/corpus_c17/src/generated.rs, cargo compiles the corpus (the proc-macro
+the definitions as Rust into harness/corpus_c17/part*/generated.rs, cargo compiles the corpus (the proc-macro
 #[derive(AvroSchema)] runs on every definition), the corpus binary executes every scenario on the real crate, and
 Trace_Derive.tla judges the recorded executions."""
 import hashlib
@@ -244,7 +244,7 @@ def build_corpus(scns, menu):
         if rc == 0:
             return dropped, total
         bad = {}
-        for m in re.finditer(r"part(\d)/src/lib\.rs:(\d+):\d+: error(?:\[E\d+\])?: (.*)", out):
+        for m in re.finditer(r"part(\d)/generated\.rs:(\d+):\d+: error(?:\[E\d+\])?: (.*)", out):
             part, line = int(m.group(1)), int(m.group(2))
             for name, (a, b) in spans[part].items():
                 if a <= line <= b:
